@@ -342,6 +342,9 @@ func rewriteSelect(s *ast.SelectStmt) ast.Stmt {
 	hd := "false"
 	if hasDefault {
 		hd = "true"
+	} else {
+		// keeps the statement terminating when every case terminates, like the select it replaces
+		sw.Body.List = append(sw.Body.List, &ast.CaseClause{Body: []ast.Stmt{&ast.ExprStmt{X: call(id("panic"), &ast.BasicLit{Kind: token.STRING, Value: `"vsched: impossible select result"`})}}})
 	}
 	sw.Tag = call(&ast.SelectorExpr{X: id(selv), Sel: id("Wait")}, id(hd))
 	return &ast.BlockStmt{List: append(pre, sw)}
